@@ -410,7 +410,97 @@ def evaluate(vec, r, props, style=0, morph_from=None, huge=False, chan_zero=None
                 if eq1 or eq2:
                     out.append(("C14:different_content_equal", _where(b, m) + (" (new samples are 0.0)" if zero_new else "")))
                     break
+                if not zero_new:
+                    late = _compare_after_edit(kind, fmt, b, m, base, r, style)
+                    if late:
+                        out.append((late, _where(b, m) + " (the block had been compared before and was then edited in place)"))
+                        break
     return out
+
+
+def _same(x, y):
+    if isinstance(x, np.ndarray) or isinstance(y, np.ndarray):
+        return (isinstance(x, np.ndarray) and isinstance(y, np.ndarray) and x.shape == y.shape and x.dtype == y.dtype
+                and bool(np.array_equal(x, y, equal_nan=True)) if x.dtype != object else False)
+    try:
+        return bool(x == y) and type(x) is type(y)
+    except Exception:  # noqa: BLE001
+        return False
+
+
+def _edit_towards(dst, fa, fb, depth=0):
+    """dst was built like fa and has been used since; fa and fb are unused twins of the two contents.
+    Edit dst, in place, exactly where fa and fb differ: public attributes are assigned, arrays are
+    overwritten element-wise, cells of object grids are replaced; private containers are only walked
+    through.  False when the difference cannot be reached that way (another number of items, a
+    private scalar)."""
+    import enum
+    if depth > 4:
+        return False
+    va, vb, vd = vars(fa), vars(fb), vars(dst)
+    for name, x in va.items():
+        if name not in vb or name not in vd:
+            return False
+        y, cur = vb[name], vd[name]
+        if isinstance(x, np.ndarray) and isinstance(y, np.ndarray):
+            if x.shape != y.shape or x.dtype != y.dtype:
+                return False
+            if x.dtype == object:
+                for idx in np.ndindex(x.shape):
+                    cx, cy = x[idx], y[idx]
+                    if not ((cx is None and cy is None) or (cx is not None and cy is not None and _same(cx, cy))):
+                        cur[idx] = cy
+            elif not np.array_equal(x, y, equal_nan=True):
+                if not cur.flags.writeable:
+                    return False
+                cur[...] = y
+        elif isinstance(x, list) and isinstance(y, list):
+            if len(x) != len(y) or len(cur) != len(x):
+                return False
+            for i, (p, q) in enumerate(zip(x, y)):
+                if hasattr(p, "__dict__") and type(p) is type(q) and not isinstance(p, enum.Enum):
+                    if not _edit_towards(cur[i], p, q, depth + 1):
+                        return False
+                elif not _same(p, q):
+                    if name.startswith("_"):
+                        return False
+                    cur[i] = q
+        elif hasattr(x, "__dict__") and type(x) is type(y) and not isinstance(x, enum.Enum):
+            if not _edit_towards(cur, x, y, depth + 1):
+                return False
+        elif not _same(x, y):
+            if name.startswith("_"):
+                return False
+            setattr(dst, name, y)
+    return True
+
+
+def _compare_after_edit(kind, fmt, b, m, used, r, style):
+    """`used` holds content b and has taken part in comparisons.  It is edited in place until it holds
+    content m (checked by reading it back through the abstraction, not through the library's
+    encoder); it must then be unequal to a block with content b and equal to one with content m."""
+    try:
+        vals = Values(r, specials=False)
+        twin = ab.gamma(kind, fmt, b, Values(r, specials=False), style)
+        if not (bool(used == twin) and bool(twin == used)):
+            return None                      # reported by the fresh-pair clauses
+        fa = ab.gamma(kind, fmt, b, Values(r, specials=False), style)
+        fb = ab.gamma(kind, fmt, m, Values(r, specials=False), style)
+        if not _edit_towards(used, fa, fb):
+            return None
+        if ab.alpha(kind, fmt, used, vals) != ab.alpha(kind, fmt, fb, vals):
+            return None                      # the edit did not produce content m: no verdict
+    except Exception:  # noqa: BLE001
+        return None
+    try:
+        PAIRS[0] += 1
+        if bool(used == twin) or bool(twin == used):
+            return "C14:different_content_equal"
+        if not (bool(used == fb) and bool(fb == used)):
+            return "C14:equal_content_unequal"
+    except Exception as x:  # noqa: BLE001
+        return "C14:comparison_raises"
+    return None
 
 
 def _scramble_checks(kind, fmt, b, toks, vals, enc, out, entry=False):
